@@ -11,6 +11,7 @@ from . import backtest_run as btr
 from . import algos_select as sel
 from . import algos_rebalance as rb
 from . import core_getters as gt
+from . import algos_weigh as wg
 
 UPD = [("date", "date"), ("data", "optdata"), ("inow", "optint")]
 
@@ -67,6 +68,8 @@ def build():
         verifiers[c.qualname] = gt.verify_getter
     for c, v in rb.contracts():
         reg(c, v)
+    for c, v in wg.contracts():
+        reg(c, v)
     for c, v in sel.contracts():
         reg(c, v)
         if v is None:
@@ -91,6 +94,7 @@ def build():
     loops.update(btr.LOOPS)
     loops.update(ops.LOOPS)
     loops.update(rb.LOOPS)
+    loops.update(wg.LOOPS)
     # state merging at if-joins keeps StrategyBase.update at tens of paths; for the non-linear sizing
     # search of allocate separate paths are much easier for the solver
     options = {"bt.core.SecurityBase.allocate": dict(merge=False)}
